@@ -132,6 +132,11 @@ func c20IP(ipSpec string) string {
 	if p := net.ParseIP(ip); p != nil {
 		return p.String()
 	}
+	if addr, zone, hasZone := strings.Cut(ip, "%"); hasZone {
+		if p := net.ParseIP(addr); p != nil {
+			return p.String() + "%" + zone
+		}
+	}
 	return ip
 }
 
@@ -141,6 +146,9 @@ func TestVerifC20(t *testing.T) {
 	// white list 10.0.0.0/8; an IPv4-mapped IPv6 address is the IPv4 address it carries
 	wlBlocks := "10.0.0.0/8"
 	wl := func(ip string) bool { // membership by the definition of a CIDR block, block by block
+		if addr, _, hasZone := strings.Cut(ip, "%"); hasZone {
+			ip = addr // the zone says which link the address is on, not which address it is
+		}
 		p := net.ParseIP(ip)
 		if p == nil {
 			return false
@@ -165,6 +173,9 @@ func TestVerifC20(t *testing.T) {
 		// blocks that overlap: narrow before wide with the same base address, wide before narrow, IPv6, a host route
 		{name: "nested-blocks", blocks: "192.168.0.0/24,192.168.0.0/16,2001:db8::/64,2001:db8::/32,172.16.5.5/32", max: 1, clients: [][]string{{"192.168.7.7", "192.168.7.7"}, {"xff:2001:db8:1::5", "xff:2001:db8:1::5"}, {"172.16.5.5", "172.16.5.6", "172.16.5.6"}}, reader: "192.168.7.7"},
 		{name: "nested-blocks-wide-first", blocks: "10.0.0.0/8,10.1.0.0/16,10.1.1.0/24", max: 1, clients: [][]string{{"10.1.1.1", "10.1.1.1"}, {"10.200.0.1"}, {"11.0.0.1", "11.0.0.1"}}, reader: "11.0.0.1"},
+		// link-local IPv6 clients: the server's RemoteAddr carries the zone ("[fe80::1%eth0]:port")
+		{name: "link-local-zone", max: 1, clients: [][]string{{"fe80::1%eth0", "fe80::1%eth0"}, {"fe80::1%eth0"}, {"fe80::2%eth0", "1.2.3.4"}}, reader: "fe80::1%eth0"},
+		{name: "link-local-zone-whitelisted", blocks: "fe80::/10", max: 1, clients: [][]string{{"fe80::1%eth0", "fe80::1%eth0"}, {"xff:fe80::1%eth0", "xff:fe80::1%eth0"}, {"2001:db8::1", "2001:db8::1"}}, reader: "2001:db8::1"},
 		{name: "after-boundary-logfile", max: 3, clients: [][]string{{"1.2.3.4", "1.2.3.4"}, {"1.2.3.4"}, {"5.6.7.8"}}, reader: "1.2.3.4", startOff: c20Interval + 1, logFile: true},
 		{name: "boundary-tick-logfile", max: 2, clients: [][]string{{"1.2.3.4", "1.2.3.4"}, {"1.2.3.4"}}, reader: "1.2.3.4", tickTo: c20Interval + 1, startOff: c20Interval, logFile: true},
 	}
